@@ -294,3 +294,32 @@ def helper_traces(rng, n_cases, first_id):
                 ev.append(e)
         traces.append(dict(id=tid, hdr=dict(mode='helper', step=1, W=0, N=0, exc='none', syms=[]), ev=ev))
     return traces
+
+
+def rerun_helper_event(e):
+    """re-drive one recorded helper event (replay)"""
+    from jesse.services import candle as cs
+    from jesse.modes import backtest_mode as bm
+    from jesse import utils
+    base = float(S.T0)
+    tf = [k for k, v in TFMIN.items() if v == e.get('T', 1)][0]
+    if e['k'] == 'tables':
+        names = e['names']
+        ev = dict(k='tables', names=names, utils=[int(utils.timeframe_to_one_minutes(t)) for t in names],
+                  sim=[int(bm.timeframe_to_one_minutes[t]) for t in names])
+    else:
+        a = np.array([[base + r[0] * 60000.0] + [float(x) for x in r[1:]] for r in e['inp']]).reshape(-1, 6)
+        ev = dict(e, ok=True, exc='none', out=[])
+        try:
+            if e['k'] == 'gen':
+                g = cs._get_generated_candles(tf, a)
+                ev['out'] = enc_rows(g, base) if len(g) else []
+            else:
+                ev['out'] = [enc_row(cs.generate_candle_from_one_minutes(tf, a, e['accept']), base)]
+        except EncodeError:
+            raise
+        except Exception as ex_:
+            ev['ok'] = False
+            ev['exc'] = type(ex_).__name__
+    return dict(id=1, hdr=dict(mode='helper', step=1, W=0, N=0, exc='none', syms=[]), ev=[ev],
+                stats=dict(fills=0, steps=0, hookreads=0, formingreads=0, fill_minutes=[], reads=0))
